@@ -186,7 +186,7 @@ func runBounded(b BoundedCheck, tier string, verifDir string) (ok bool, summary 
 	defer cancel()
 	cmd := exec.CommandContext(ctx, "go", "test", "-overlay", ovFile, "-vet=off", "-count=1", "-timeout", limit, "-v", "-run", "^TestVerifBounded$", "./"+b.Pkg)
 	cmd.Dir = optRepo
-	cmd.Env = append(os.Environ(), "GOFLAGS=-mod=mod", "GOPROXY=off", "GOSUMDB=off", "GOTOOLCHAIN=local", fmt.Sprintf("VERIF_BOUND=%d", bound), "VERIF_BOUNDED_PROP="+b.Prop)
+	cmd.Env = append(os.Environ(), "GOFLAGS=-mod=mod", "GOPROXY=off", "GOSUMDB=off", "GOTOOLCHAIN=local", fmt.Sprintf("VERIF_BOUND=%d", bound), "VERIF_BOUNDED_PROP="+b.Prop, "VERIF_BOUNDED_DESC="+b.Desc)
 	out, _ := cmd.CombinedOutput()
 	for _, ln := range strings.Split(string(out), "\n") {
 		if strings.HasPrefix(ln, "BOUNDED-OK") {
